@@ -88,6 +88,8 @@ def tasks_for(tier):
     cuts3 = (0.25, 0.375, 0.625)
     for st, method, nt, opts in e1.all_forward_configs():
         T.append((st, method, nt, opts, 1, 2, 1, cuts3, 0.125, True))
+        # the final time is off the step grid: the last chunk consists of the clipped partial step only
+        T.append((st, method, nt, opts, 1, 2, 1, (0.125, 0.1875), 0.125, True))
     if tier != 'quick':
         for st, method, nt, opts in e1.all_forward_configs():
             T.append((st, method, nt, opts, 2, 2, 2, cuts2, 0.125, True))
@@ -99,7 +101,7 @@ def run(ctx):
     ctx.fn('sdeint (extra=True / extra_solver_state)', 'parse_return', 'BaseSDESolver.integrate', 'every solver step / init_extra_solver_state',
            'ReversibleHeun.step (extra state)')
     ctx.stubs.append('Brownian motion: deterministic stub keyed by the queried interval (the same object serves all chunks)')
-    ctx.bounds = {'chunks': '3 (quick) / 2-4, restart points on the dt grid (dyadic dt = 1/8, so grid times are exact floats)',
+    ctx.bounds = {'chunks': '3, and 2 with a clipped final step (quick) / 2-4, restart points on the dt grid (dyadic dt = 1/8, so grid times are exact floats)',
                   'steps': '4-5', 'dims': 'd=1 (quick) / d=2, batch 2', 'grid part': 'symbolic t0, dt, clipped last step, k1,k2 <= 2-3 steps per chunk'}
     ctx.assumptions += ['identical float-operation DAG => bit-identical results (IEEE determinism)', 'DAGs are compared modulo 1*x, 0*x, x+0 (exact for finite floats; signed zeros compare equal): an output at a grid time is computed as 0*prev + 1*curr']
     ctx.outside += ['float drift between the accumulated current time and a user-computed restart time (non-dyadic dt)']
